@@ -185,12 +185,6 @@ Qed.
 Definition st0 : store := mkSt (fun t => 10 + t) (fun c => match c with 0 => [(n_params, RT 0)] | 1 => [(n_u, RT 1)] | _ => [] end) 2 2.
 Definition tr0 : obj := mkObj [(n_grid, RV 7); (n_args, RV 0)] 0 1 true.        (* Translation(grid, params=True) after update() *)
 
-Definition snap_eqb (a b : list (nat * nat * nat * nat) * list (nat * nat * nat * nat) * list (nat * nat * nat * nat)) : bool :=
-  let q x y := match x, y with (a1, a2, a3, a4), (b1, b2, b3, b4) => (a1 =? b1) && (a2 =? b2) && (a3 =? b3) && (a4 =? b4) end in
-  let fix leq (l m : list (nat * nat * nat * nat)) := match l, m with
-      | [], [] => true | x :: l', y :: m' => q x y && leq l' m' | _, _ => false end in
-  match a, b with (a1, a2, a3), (b1, b2, b3) => leq a1 b1 && leq a2 b2 && leq a3 b3 end.
-
 (* t.data(arg) / t.unlink() with a Parameter: the receiver's own parameter entry is replaced *)
 Lemma acc_data_param_refuted :
   match acc_data st0 tr0 5 with SOk st' _ => snap_eqb (snap st' tr0) (snap st0 tr0) | SErr => true end = false.
